@@ -480,3 +480,54 @@ PROPS['C13'] = dict(
     assumptions=COMMON_ASSUME,
     extra_coverage={'conversions': lambda agg, d: agg['counters'].get('conversions', 0), 'copyarray_calls': lambda agg, d: agg['counters'].get('copyarray_calls', 0)},
 )
+
+
+# ---------------------------------------------------------------- C17
+def c17_jobs(tier):
+    jobs = [Job('units', 'c17', 'units', 0), Job('pairs', 'c17', 'pairs', 0), Job('bytes', 'c17', 'bytes', 0)]
+    if tier == 'thorough':
+        cfg = {'ARDUINOJSON_STRING_LENGTH_SIZE': 1, 'ARDUINOJSON_SLOT_ID_SIZE': 1, 'ARDUINOJSON_DEBUG': 1, 'ARDUINOJSON_ENABLE_COMMENTS': 1}
+        jobs += [Job('units-cfg', 'c17', 'units', 0, defines=cfg), Job('pairs-cfg', 'c17', 'pairs', 0, defines=cfg), Job('bytes-cfg', 'c17', 'bytes', 0, defines=cfg)]
+    return jobs
+
+
+PROPS['C17'] = dict(
+    level='exploration',
+    rule='complete enumeration used as workload: all 65536 \\\\uXXXX code units x 3 positions x upper/lower hex x value/key (surrogates alone: safety only); all 1024 x 1024 surrogate pairs '
+         '(random position, hex case, value/key, single- and double-quoted); all 256 single bytes and all 65536 byte pairs as string value and as key through serializeJson -> deserializeJson, '
+         'with the serialized text compared against the reference escaper (only " \\\\ \\\\b \\\\f \\\\n \\\\r \\\\t and NUL altered); 8 orders of unpaired surrogates per row (safety). distinct = code unit / high surrogate / first byte',
+    jobs=c17_jobs,
+    exhaustive=lambda tier: True,
+    min_evaluations=dict(quick=66000, thorough=130000),
+    technique='exhaustive enumeration of the code-unit, surrogate-pair and byte-pair spaces executed under ASan+UBSan against a 20-line reference UTF-8 encoder and escaper',
+    level_text='Exploration, exhaustive over the finite spaces named in the statement (quick and thorough alike).',
+    level_note='Unpaired surrogates are judged for memory safety only (don\'t-care 3).',
+    assumptions=COMMON_ASSUME + ['ARDUINOJSON_DECODE_UNICODE=1'],
+    extra_coverage={'escape_parses': lambda agg, d: agg['counters'].get('escape_parses', 0), 'byte_strings': lambda agg, d: agg['counters'].get('byte_strings', 0)},
+)
+
+
+# ---------------------------------------------------------------- C18
+def c18_jobs(tier):
+    jobs = [Job('pairs', 'c18', 'pairs', 0, timeout=q(tier, 900, 3600)), Job('scalars', 'c18', 'scalars', 0)]
+    if tier == 'thorough':
+        for i, cfg in enumerate([{'ARDUINOJSON_USE_DOUBLE': 0}, {'ARDUINOJSON_SLOT_ID_SIZE': 2, 'ARDUINOJSON_STRING_LENGTH_SIZE': 1, 'ARDUINOJSON_DEBUG': 1}]):
+            jobs += [Job('pairs-cfg%d' % i, 'c18', 'pairs', 0, defines=cfg, timeout=3600), Job('scalars-cfg%d' % i, 'c18', 'scalars', 0, defines=cfg)]
+    return jobs
+
+
+PROPS['C18'] = dict(
+    level='exploration',
+    rule='value pool of about 230 values (integers at every width edge +-1 in signed and unsigned storage and both signs, floats/doubles incl. +-0, subnormals, 2^53+-1, 2^63, 2^64, +-inf, NaN; '
+         'linked and copied strings incl. prefixes, NUL, bytes >= 0x80; raw values that are prefixes of one another; bin values; nested arrays, permuted objects; null; unbound): ALL ordered pairs x six operators x both operand orders, '
+         'within one document, across two documents (other storage), JsonVariant vs JsonVariantConst, container handles, unbound references, std::string / const char* / JsonString operands; '
+         'and every value against C++ scalars of 11 types at their edges. Judged: the six coherence laws on every pair; agreement with the values wherever the statement determines it. distinct = pair index',
+    jobs=c18_jobs,
+    exhaustive=lambda tier: True,
+    min_evaluations=dict(quick=40000, thorough=100000),
+    technique='exhaustive pair enumeration over a boundary value pool, executed under ASan+UBSan, judged by algebraic laws and an exact reference comparison (__int128-free: sign/magnitude for integers, double otherwise)',
+    level_text='Exploration, exhaustive for the pool (all ordered pairs).',
+    level_note='Not determined by the statement and judged by the laws only: NaN operands (don\'t-care 4), bool against number, the order (not the equality) of two strings / raws / booleans.',
+    assumptions=COMMON_ASSUME,
+    extra_coverage={'pair_comparisons': lambda agg, d: agg['counters'].get('pair_comparisons', 0), 'scalar_comparisons': lambda agg, d: agg['counters'].get('scalar_comparisons', 0)},
+)
